@@ -19,7 +19,7 @@ def run(ctx):
     ctx.tlc_must_pass("MC_Encoder", "MC_Encoder", timeout=900)
     ctx.tlc_must_pass("MC_Renderer", "MC_Renderer_q" if quick else "MC_Renderer_t", timeout=3000)
     n = 300 if quick else 20000
-    e = enccheck.run_enc_traces(ctx, ["reuse", "wellformed"], n, ["err", "mode", "run", "lod", "sel"], want=("enc", "rt"))
+    e = enccheck.run_enc_traces(ctx, ["reuse", "wellformed", "zerofirst"], n, ["err", "mode", "run", "lod", "sel"], want=("enc", "rt"))
     for kind, ds in e["diags"].items():
         for d in ds:
             ctx.violation("enc:%s:%s:%s" % (kind, d.get("diag"), d.get("id")),
